@@ -34,7 +34,8 @@ def run(ctx):
                        "key lists through M-Register vs the real symbol table; same input in two child processes")
     if not harness_build(ctx):
         return
-    args = ["--seed", ctx.seed, "--sets", tier_n(ctx, 10, 150), "--big", tier_n(ctx, 3, 40), "--rand", tier_n(ctx, 6, 30)]
+    args = ["--seed", ctx.seed, "--sets", tier_n(ctx, 10, 150), "--big", tier_n(ctx, 3, 40), "--rand", tier_n(ctx, 6, 30),
+            "--excl", tier_n(ctx, 200, 20000)]
     if getattr(ctx, "replay", None):
         args = ["--replay", _replay_file(ctx)]
     rc, out, d = run_hx(ctx, "order", args)
